@@ -26,6 +26,15 @@ MISSED = {
  "C14-4": "missed (value expressions were literals or plain calls); caught after value expressions with a guard temporary (`cell.borrow_mut().take(v)`) were generated",
  "C15-4": "missed (node values never changed during a search); caught after the relaxing for_each closure was added to the differential programs",
  "C16-4": "caught at once (per-position Sync-but-not-Send witness in the edge value)",
+ "C04-5": "missed (transpose() was a 0-or-1 option); caught after two of the six builder-option orders apply the closure-free options twice",
+ "C07-5": "missed (same as C04-5); caught after closure-free options are applied twice in some orders",
+ "C10-5": "missed (options were always applied in the order min/max, target, transpose, closure); caught after the options are applied in one of six orders chosen by a hash of the case",
+ "C13-5": "missed (keys were integers or short ASCII strings); caught after the payload programs got 40+ byte keys of 3-byte characters behind 0-3 ASCII bytes",
+ "C19-5": "missed by the quick tier (largest adjacency list 300; the thorough tier had 2100); caught after the quick sizes of the cheap long-list families were raised to 4097",
+ "C12-5": "caught at once (wire.edge-list on the CBOR document)",
+ "C17-5": "caught at once (lock-discipline probe: re-entrant read in find_inbound, confirmed by the focused stress as free-running.deadlock)",
+ "C18-5": "caught at once (dot.edge-attributes)",
+ "C20-5": "caught at once (yield.edge-does-not-exist-now for `for e in &node`)",
 }
 def run(patch, props):
     out = subprocess.run(["/verif/tools/try_mutant.sh", patch, "quick"] + props, capture_output=True, text=True, timeout=3600).stdout
@@ -40,7 +49,7 @@ for d in sorted(glob.glob("/tmp/seeded-out/*/")):
     prop = name.split("-")[0]
     dst = f"/verif/seeded/{name}"
     if os.path.exists(f"{dst}/meta.json"): continue
-    if not os.path.exists(f"{d}/confirm.json"): continue
+    if not os.path.exists(f"{d}/confirm.json") or os.path.exists(f"{d}/REJECTED"): continue
     conf = json.load(open(f"{d}/confirm.json"))
     if not all(v for k, v in conf.items() if k != "candidate"): continue
     os.makedirs(dst, exist_ok=True)
